@@ -233,8 +233,39 @@ func run(e *vlib.Env) vlib.Result {
 	if oc == vlib.Done {
 		vlib.WaitClosed(rn.SubbersDone(), vlib.WD)
 		vlib.WaitClosed(rn.CancelsDone(), vlib.WD)
-		if o, _ := vlib.Settle(vlib.WD); o == vlib.Inconclusive {
-			res.Inconclusive("not quiescent")
+		settle := func() string {
+			o, d := vlib.Settle(vlib.WD)
+			if o == vlib.Inconclusive {
+				res.Inconclusive("not quiescent")
+			}
+			return d
+		}
+		qdump := settle()
+		// after a release, a withholding subscription may still have come into being after the publishers finished (its Subscribe
+		// call had been waiting for the write lock): a nested Publish made by a consumer that is fed by the replay would then
+		// wait for it legitimately. Cancel those too before judging.
+		for round := 0; released && round <= len(prog.Subs); round++ {
+			n := 0
+			for _, s := range rn.SubRecs() {
+				if withholds(s.Spec) && s.CancelStart.Load() == 0 {
+					rn.CancelSub(s.ID)
+					n++
+				}
+			}
+			if n == 0 {
+				break
+			}
+			res.Count("withholding_subscriptions_cancelled_after_publishers_finished", n)
+			qdump = settle()
+		}
+		if res.Verdict == "" {
+			// quiescent: a nested Publish (made from a receive loop) that has not returned by now never will
+			for _, p := range rn.PubRecs() {
+				if p.End == 0 && p.Panic == "" {
+					oc, dump = vlib.Stuck, qdump
+					break
+				}
+			}
 		}
 	}
 	if res.Verdict == "" {
